@@ -402,7 +402,30 @@ Session make(const std::string& kind, long idx)
         Board start = idx % 3 == 0 ? Board::startpos() : (idx % 3 == 1 ? Board::fen(gen::CORPUS[RNG->below(gen::CORPUS_N)]) : gen::synth(*RNG, int(RNG->below(gen::T_COUNT))));
         gen::Policy pol;
         gen::Game g = gen::random_game(*RNG, start, 20 + int(RNG->below(160)), pol, "replay");
-        s.tag = "replay:" + std::to_string(g.moves.size());
+        bool king_home = false;
+        if (idx % 6 == 5)
+        {
+            // first move: the king leaves its home square along the back rank WITHOUT castling (capturing a piece next to
+            // it when possible) while castling rights are still there: e1d1/e1f1 must not be taken for anything else
+            for (int tries = 0; tries < 300 && !king_home; ++tries)
+            {
+                Board c = gen::synth(*RNG, gen::T_CASTLE);
+                if (!c.castle) continue;
+                int ksq = c.stm == orc::WHITE ? 4 : 60;
+                std::vector<orc::Move> cand, caps;
+                for (const orc::Move& m : c.legal())
+                    if (m.from == ksq && orc::rank_of(m.to) == orc::rank_of(ksq) && !c.is_castle(m)) (c.is_capture(m) ? caps : cand).push_back(m);
+                if (caps.empty() && (cand.empty() || tries < 200)) continue;
+                orc::Move km = !caps.empty() ? caps[RNG->below(uint32_t(caps.size()))] : cand[RNG->below(uint32_t(cand.size()))];
+                gen::Game rest = gen::random_game(*RNG, c.after(km), int(RNG->below(30)), pol, "replay");
+                g.start_fen = c.fen();
+                g.moves.clear();
+                g.moves.push_back(km);
+                g.moves.insert(g.moves.end(), rest.moves.begin(), rest.moves.end());
+                king_home = true;
+            }
+        }
+        s.tag = std::string(king_home ? "replay-king-leaves-home-along-back-rank:" : "replay:") + std::to_string(g.moves.size());
         size_t n = 0;
         while (true)
         {
